@@ -39,7 +39,7 @@ done
 for d in seeded/*/; do
   [ -f "$d/meta.json" ] || continue
   prop=$(python3 -c "import json;m=json.load(open('$d/meta.json'));print(m['property'])")
-  det=$(python3 -c "import json;m=json.load(open('$d/meta.json'));print(1 if (m.get('detected_by') or {}).get(m['property'],{}).get('exit')==1 else 0)")
+  det=$(python3 -c "import json;m=json.load(open('$d/meta.json'));print(1 if (m.get('detected_by') or {}).get(m['property'],{}).get('exit')==1 and not m.get('superseded') else 0)")
   [ "$det" = 1 ] || continue
   run_one "$d/patch.diff" 0 "$prop" violation "seeded/$(basename $d)"
 done
